@@ -28,7 +28,9 @@ type AcctInfo struct {
 	KName  string // canonical short name used in logs (k0, k1, ...)
 	Locked bool   // created with a passphrase the unlocker does not know
 	DupKey bool   // another account of the population holds the same key: addressing by key is ambiguous
-	idx    int
+	// Composite is set for an account of a distributed wallet: the validator's key, of which PubKey is this instance's share.
+	Composite []byte
+	idx       int
 }
 
 // Population is a wallet store with accounts, built once per process and shared by runs.
@@ -92,8 +94,47 @@ func newPopulationOn(t *testing.T, tag string, specs []WalletSpec, store e2wtype
 	for _, spec := range specs {
 		switch spec.Kind {
 		case "distributed":
-			if _, err := distributed.CreateWallet(ctx, spec.Name, p.Store, p.Encryptor); err != nil {
+			dw, err := distributed.CreateWallet(ctx, spec.Name, p.Store, p.Encryptor)
+			if err != nil {
 				panic(err)
+			}
+			if len(spec.Accounts) > 0 {
+				// This instance's shares of keys generated earlier (2-of-3, this instance being participant 1): the
+				// share is the polynomial evaluated at 1, the verification vector its coefficients' public keys.
+				if err := dw.(e2wtypes.WalletLocker).Unlock(ctx, nil); err != nil {
+					panic(err)
+				}
+				for _, an := range spec.Accounts {
+					var c0, c1, share bls.SecretKey
+					if err := c0.Deserialize(secretFor(tag+" poly0", n)); err != nil {
+						panic(err)
+					}
+					if err := c1.Deserialize(secretFor(tag+" poly1", n)); err != nil {
+						panic(err)
+					}
+					var id bls.ID
+					if err := id.SetDecString("1"); err != nil {
+						panic(err)
+					}
+					if err := share.Set([]bls.SecretKey{c0, c1}, &id); err != nil {
+						panic(err)
+					}
+					vvec := [][]byte{c0.GetPublicKey().Serialize(), c1.GetPublicKey().Serialize()}
+					a, err := dw.(e2wtypes.WalletDistributedAccountImporter).ImportDistributedAccount(ctx, an, share.Serialize(), 2, vvec,
+						map[uint64]string{1: "signer-01:9000", 2: "signer-02:9001", 3: "signer-03:9002"}, []byte("pass"))
+					if err != nil {
+						panic(err)
+					}
+					info := &AcctInfo{Wallet: spec.Name, Name: an, Path: spec.Name + "/" + an, PubKey: a.PublicKey().Marshal(), Secret: share.Serialize(), KName: fmt.Sprintf("k%d", n), idx: n,
+						Composite: vvec[0]}
+					p.Accts = append(p.Accts, info)
+					p.byKey[string(info.PubKey)] = info
+					p.byPath[info.Path] = info
+					n++
+				}
+				if err := dw.(e2wtypes.WalletLocker).Lock(ctx); err != nil {
+					panic(err)
+				}
 			}
 			continue
 		}
@@ -173,7 +214,9 @@ func StdPopulation(t *testing.T) *Population {
 		w2.Accounts = append(w2.Accounts, "Sealed")
 		// Account names may contain the path separator: these two live beside "Wallet 2/Account 0".
 		w2.Accounts = append(w2.Accounts, "Account 0/sub", "Account 0/sub/deep")
-		stdPop = NewPopulation(t, "std", []WalletSpec{w1, w2, {Name: "Wallet 3", Kind: "distributed"}})
+		// The distributed wallet comes first: key k0 of every world built on this population is this instance's share of
+		// a threshold key (slashing protection, locking, export and import are per share key, like any other key).
+		stdPop = NewPopulation(t, "std", []WalletSpec{{Name: "Wallet 3", Kind: "distributed", Accounts: []string{"Shared validator"}}, w1, w2})
 	})
 	return stdPop
 }
